@@ -144,6 +144,10 @@ def o_damage(case):
             cls.append("damage-in-" + i["where"])
     if case.get("long_run"):
         cls.append("long-run-of-damaged-frames")
+    if "tiny" in case:
+        cls.append("two-byte-payload-all-single-bit-damage")
+    if sum(1 for i in items if i.get("repeat") and i["k"] == "damaged") >= 2:
+        cls.append("re-broadcast-frame-damaged-twice")
     if any(i["k"] == "damaged" and i.get("syncy_payload") for i in items):
         cls.append("damaged-frame-with-sync-like-payload")
     cls.append("handler-" + case.get("handler", "function"))
@@ -153,7 +157,44 @@ def o_damage(case):
 @st.composite
 def s_damage(draw, tier):
     items = draw(st.lists(st.one_of(streams.frames("small"), streams.frames("small"), streams.damaged_frames("small")), min_size=1, max_size=10))
+    if draw(st.integers(0, 3)) == 0:
+        # a re-broadcast message: the same frame several times, adjacent copies damaged differently in the payload only
+        base = bytes.fromhex(draw(streams.frames("small"))["b"])
+        nb = len(base) * 8
+        reps = []
+        same = draw(st.booleans())  # identical damage in every copy, or different damage per copy
+        fixedpos = draw(st.lists(st.integers(24, max(24, nb - 25)), min_size=1, max_size=3, unique=True))
+        for _ in range(draw(st.integers(2, 4))):
+            if nb - 48 > 0 and draw(st.integers(0, 3)) != 0:
+                pos = fixedpos if same else draw(st.lists(st.integers(24, nb - 25), min_size=1, max_size=3, unique=True))
+                reps.append(streams.item("damaged", framing.flip_bits(base, sorted(pos)), pos=sorted(pos), where="payload", repeat=True))
+            else:
+                reps.append(streams.item("frame", base, repeat=True))
+        k = draw(st.integers(0, len(items)))
+        items = items[:k] + reps + items[k:]
     return {"items": items, "mode": draw(st.sampled_from(["ignore", "log-handler", "log-nohandler", "raise"])), "handler": draw(st.sampled_from(["function", "collector", "bound-method"]))}
+
+
+def e_tiny(tier, shard, nshards):
+    """EVERY message number in a frame with a 2-byte payload x EVERY single-bit damage position behind the header
+    (16 payload + 24 CRC bits), between two good frames; modes rotate (complete over numbers and positions)"""
+    from pv import framing as fr
+
+    good = {"k": "frame", "b": fr.build_frame(b"\xfe\x80\x01\x02").hex()}
+    modes = ("ignore", "log-handler", "raise", "log-nohandler")
+    step = 1 if tier == "thorough" else 1
+    for n in range(shard, 4096, nshards * step):
+        f = fr.build_frame(bytes([n >> 4, (n & 0xF) << 4]))
+        items = [good]
+        for pos in range(24, len(f) * 8):
+            items.append({"k": "damaged", "b": fr.flip_bits(f, [pos]).hex(), "where": "crc" if pos >= len(f) * 8 - 24 else "payload"})
+            items.append(good)
+        yield {"items": items, "mode": modes[n % 4], "handler": "function", "tiny": n}
+
+
+def e_all(tier, shard, nshards):
+    yield from e_runs(tier, shard, nshards)
+    yield from e_tiny(tier, shard, nshards)
 
 
 def e_runs(tier, shard, nshards):
@@ -177,6 +218,8 @@ def e_runs(tier, shard, nshards):
 
 
 def _sample(c):
+    if "tiny" in c:
+        return {"tiny": c["tiny"], "mode": c["mode"], "items": "good frame, then for each of the 40 bit positions behind the header: 2-byte-payload frame of this number with that bit flipped, good frame"}
     if c.get("long_run"):
         return {"long_run": c["long_run"], "mode": c["mode"], "items": "good frame, long_run single-bit-damaged 4-byte frames, good frame"}
     return {k: (v if k != "items" else [{**i, "b": i["b"][:40] + ("..." if len(i["b"]) > 40 else "")} for i in v]) for k, v in c.items()}
@@ -187,10 +230,10 @@ SUBS = [
         "damaged_streams",
         o_damage,
         strategy=s_damage,
-        enum=e_runs,
+        enum=e_all,
         examples=(250, 5000),
         rule="see property rule",
-        need={"damaged-frame-with-sync-like-payload": 1, "long-run-of-damaged-frames": 1, "handler-collector": 1, "damage-in-crc": 1, "damage-in-payload": 1, "damage-in-straddle": 1, "adjacent-damaged": 1, "raise": 1, "log-nohandler": 1},
+        need={"two-byte-payload-all-single-bit-damage": 4096, "re-broadcast-frame-damaged-twice": 1, "damaged-frame-with-sync-like-payload": 1, "long-run-of-damaged-frames": 1, "handler-collector": 1, "damage-in-crc": 1, "damage-in-payload": 1, "damage-in-straddle": 1, "adjacent-damaged": 1, "raise": 1, "log-nohandler": 1},
         sample=_sample,
     ),
 ]
